@@ -8,11 +8,16 @@ args = ['--refresh'] if '--refresh' in sys.argv else []
 tab = subprocess.run([PY, os.path.join(V, 'tools', 'seeded_report.py')] + args, capture_output=True, text=True).stdout
 tab = tab[tab.index('| id |'):]
 rows = ['| id | what was restructured (first lines of the author\'s note) | suite | reports on the refactored tree |', '|----|---|---|---|']
-for d in sorted(os.listdir(os.path.join(V, 'seeded_benign'))):
-    mp = os.path.join(V, 'seeded_benign', d, 'meta.json')
-    if '--refresh' in sys.argv:
+if '--refresh' in sys.argv:
+    from concurrent.futures import ThreadPoolExecutor
+
+    def one(d):
         subprocess.run([PY, os.path.join(V, 'tools', 'benign_eval.py'), os.path.join(V, 'seeded_benign', d, 'patch.diff'), d, '--keep'],
                        capture_output=True, text=True)
+    with ThreadPoolExecutor(8) as ex:
+        list(ex.map(one, sorted(os.listdir(os.path.join(V, 'seeded_benign')))))
+for d in sorted(os.listdir(os.path.join(V, 'seeded_benign'))):
+    mp = os.path.join(V, 'seeded_benign', d, 'meta.json')
     if not os.path.exists(mp):
         continue
     m = json.load(open(mp))
